@@ -5,7 +5,7 @@ import PV.Props.C01
 # C01 (core) — the model code generator is correct on the IC10 machine
 
 For every program `p` of the three-address core language (ALU operations, device reads and writes, yield / sleep,
-`if`/`else`, `while` on a comparison, `while True`) whose branches use a negating suffix (`NegOk`, discharged for the real
+`if`/`else`, `while` on a comparison, `while True`, `break`, `continue`) whose branches use a negating suffix (`NegOk`, discharged for the real
 suffix tables by `PV.Props.C01.branch_neg_correct`), every environment (= every behaviour of the attached devices), every
 initial register file and every fuel:
 
@@ -30,32 +30,32 @@ theorem codeAt_self (c : List (Instr Reg V)) : CodeAt c 0 c := by
 theorem compile_correct_done (sem : Sem V) (env : Env V) (lit : Nat → V) (hlit : ∀ n, sem.toAddr (lit n) = some n)
     (p : Stmt V) (hneg : NegOk sem p) (mem : Nat → V) (fuel : Nat) (σ σ' : SSt V)
     (h : exec sem env fuel p σ = .done σ') :
-    ∃ k, run sem env (comp lit p 0) k (mk σ mem 0) = mk σ' mem (size p) ∧
-      ∀ j, (run sem env (comp lit p 0) (k + (j + 1)) (mk σ mem 0)).trace = σ'.trace ∧
-           (run sem env (comp lit p 0) (k + (j + 1)) (mk σ mem 0)).halted = true := by
-  obtain ⟨k, hk⟩ := (sim sem env lit hlit (comp lit p 0) mem fuel p hneg 0 σ (codeAt_self _)).1 σ' h
-  simp only [Nat.zero_add] at hk
+    ∃ k, run sem env (comp lit p 0 0 0) k (mk σ mem 0) = mk σ' mem (size p) ∧
+      ∀ j, (run sem env (comp lit p 0 0 0) (k + (j + 1)) (mk σ mem 0)).trace = σ'.trace ∧
+           (run sem env (comp lit p 0 0 0) (k + (j + 1)) (mk σ mem 0)).halted = true := by
+  obtain ⟨k, hk⟩ := (sim sem env lit hlit (comp lit p 0 0 0) mem fuel p hneg 0 0 0 σ (codeAt_self _)).1 .norm σ' h
+  simp only [Nat.zero_add, land] at hk
   refine ⟨k, hk, ?_⟩
   intro j
   rw [run_add, hk]
-  have hend : (comp lit p 0)[(mk σ' mem (size p)).pc]? = none := by
+  have hend : (comp lit p 0 0 0)[(mk σ' mem (size p)).pc]? = none := by
     apply List.getElem?_eq_none_iff.mpr
     simp [mk, comp_length]
-  have hstep : step sem env (comp lit p 0) (mk σ' mem (size p)) = { mk σ' mem (size p) with halted := true } := by
+  have hstep : step sem env (comp lit p 0 0 0) (mk σ' mem (size p)) = { mk σ' mem (size p) with halted := true } := by
     simp only [step]
     have : (mk σ' mem (size p)).halted = false := rfl
     simp only [this, Bool.false_eq_true, if_false, hend]
-  have hhalt : ∀ m (s : St Reg V), s.halted = true → run sem env (comp lit p 0) m s = s := by
+  have hhalt : ∀ m (s : St Reg V), s.halted = true → run sem env (comp lit p 0 0 0) m s = s := by
     intro m
     induction m with
     | zero => intro s _; rfl
     | succ m ih =>
       intro s hs
-      show run sem env (comp lit p 0) m (step sem env (comp lit p 0) s) = s
-      have : step sem env (comp lit p 0) s = s := by simp [step, hs]
+      show run sem env (comp lit p 0 0 0) m (step sem env (comp lit p 0 0 0) s) = s
+      have : step sem env (comp lit p 0 0 0) s = s := by simp [step, hs]
       rw [this]; exact ih s hs
-  have e : run sem env (comp lit p 0) (j + 1) (mk σ' mem (size p)) =
-      run sem env (comp lit p 0) j (step sem env (comp lit p 0) (mk σ' mem (size p))) := rfl
+  have e : run sem env (comp lit p 0 0 0) (j + 1) (mk σ' mem (size p)) =
+      run sem env (comp lit p 0 0 0) j (step sem env (comp lit p 0 0 0) (mk σ' mem (size p))) := rfl
   rw [e, hstep, hhalt j _ rfl]
   exact ⟨rfl, rfl⟩
 
@@ -63,9 +63,9 @@ theorem compile_correct_done (sem : Sem V) (env : Env V) (lit : Nat → V) (hlit
 theorem compile_correct_running (sem : Sem V) (env : Env V) (lit : Nat → V) (hlit : ∀ n, sem.toAddr (lit n) = some n)
     (p : Stmt V) (hneg : NegOk sem p) (mem : Nat → V) (fuel : Nat) (σ σ' : SSt V)
     (h : exec sem env fuel p σ = .timeout σ') :
-    ∃ k, fuel ≤ k ∧ (run sem env (comp lit p 0) k (mk σ mem 0)).trace = σ'.trace ∧
-      (run sem env (comp lit p 0) k (mk σ mem 0)).regs = σ'.regs ∧ (run sem env (comp lit p 0) k (mk σ mem 0)).halted = false := by
-  obtain ⟨k, pc, hle, hk⟩ := (sim sem env lit hlit (comp lit p 0) mem fuel p hneg 0 σ (codeAt_self _)).2 σ' h
+    ∃ k, fuel ≤ k ∧ (run sem env (comp lit p 0 0 0) k (mk σ mem 0)).trace = σ'.trace ∧
+      (run sem env (comp lit p 0 0 0) k (mk σ mem 0)).regs = σ'.regs ∧ (run sem env (comp lit p 0 0 0) k (mk σ mem 0)).halted = false := by
+  obtain ⟨k, pc, hle, hk⟩ := (sim sem env lit hlit (comp lit p 0 0 0) mem fuel p hneg 0 0 0 σ (codeAt_self _)).2 σ' h
   exact ⟨k, hle, by rw [hk]; rfl, by rw [hk]; rfl, by rw [hk]; rfl⟩
 
 /-! ### the hypothesis `NegOk` for what the real tables produce -/
